@@ -6,7 +6,7 @@ import json, os, subprocess, sys, threading, queue, glob
 sys.path.insert(0, "/verif/tools")
 import mutsweep
 
-OWN = {}  # seeds whose owning check is another property's (none at present)
+OWN = {"C04-13": ["C14"]}  # seeds whose owning check is another property's (C04-13 changes Parser::rfind_skip, which C14 pins to the free function)
 
 
 def sh(cmd, **kw):
